@@ -43,7 +43,7 @@ Y(e) == e.args.y
 Mode(e) == e.args.mode
 Oth(e) == e.args.o
 Data(e) == IF Has(e.args, "data") THEN e.args.data ELSE <<>>
-New1(e) == e.out.new[1]
+New1(e) == IF Len(e.out.new) > 0 THEN e.out.new[1] ELSE 0     \* total: a deviating execution may lack the handle the law expects
 HasNew(e) == Len(e.out.new) > 0
 Ret(e) == e.out.v
 ObsSet(e) == RangeOf(e.obs)
@@ -183,8 +183,13 @@ OthersUnchanged(S, e, obs) ==
 MemLaws(e) ==
   LET ms == RangeOf(MemEv(e)) IN
   (IF \E m \in ms : m.e = "free" /\ (m.size # m.rsize \/ m.align # m.ralign) THEN {<<"C02", "free_exact">>} ELSE {})
-  \cup (IF \E m \in ms : m.e = "bad_free" THEN {<<"C02", "free_exact">>} ELSE {})
+  \* a free of something that is not a live block: a second release of the same storage (C03:
+  \* "released exactly once") as well as a memory-safety violation (C02)
+  \cup (IF \E m \in ms : m.e = "bad_free" THEN {<<"C02", "free_exact">>, <<"C03", "released_once">>} ELSE {})
   \cup (IF \E m \in ms : m.e \in {"redzone", "poison"} THEN {<<"C02", "no_guard_damage">>} ELSE {})
+  \* a write into storage that was already released (the quarantined block no longer holds the
+  \* poison pattern): some handle still used it, it was released too early or twice (C03)
+  \cup (IF \E m \in ms : m.e = "poison" THEN {<<"C03", "used_after_release">>} ELSE {})
 
 InAlloc(o, led, own) ==
   \* is the region the handle claims inside the storage it points to?
